@@ -116,9 +116,56 @@ def totuple(x):
     return tuple(totuple(y) for y in x) if isinstance(x, list) else x
 
 
+def make_run_late(W, shape):
+    """the subclass relation changes while the process runs (ABC.register, the ordinary way of declaring a virtual subclass): whatever was
+    compared before, the order afterwards coincides with subclassing as it is now.  Real ABCs, fresh per run; solver selectors choose the
+    pair registered late, whether the classes were compared before, and whether a second registration follows."""
+    import abc
+
+    from ovld import typeorder
+
+    def code(o):
+        return CODE[o.name]
+
+    def run(ctx):
+        n = 3
+        Ks = [abc.ABCMeta(f"L{i}", (), {}) for i in range(n)]
+        pairs = [(i, j) for i in range(n) for j in range(n) if i != j]
+        before = ctx.choose("compared_before", 2)
+        p1 = pairs[ctx.choose("late_pair", len(pairs))]
+        second = ctx.choose("second_registration", 2)
+        p2 = pairs[ctx.choose("late_pair_2", len(pairs))] if second else None
+        trace = []
+        ok = True
+
+        def sweep(label):
+            nonlocal ok
+            for i, j in pairs:
+                d = code(typeorder(Ks[i], Ks[j]))
+                sij, sji = issubclass(Ks[i], Ks[j]), issubclass(Ks[j], Ks[i])
+                exp = 0 if (sij and sji) else -1 if sij else 1 if sji else 2
+                if d != exp:
+                    ok = False
+                    trace.append(dict(after=label, pair=[f"L{i}", f"L{j}"], typeorder=NAME[d], subclassing=NAME[exp]))
+
+        if before:
+            sweep("nothing registered")
+        for k, pr in enumerate([p1] + ([p2] if p2 else [])):
+            i, j = pr
+            if not issubclass(Ks[j], Ks[i]):       # (abc refuses to create a cycle)
+                Ks[j].register(Ks[i])
+            sweep(f"L{j}.register(L{i})")
+        return Verdict(ok, (), dict(family="relation changes at run time", compared_before=bool(before), registrations=[list(p1)] + ([list(p2)] if p2 else []),
+                                    disagreements=trace[:6]), ["late"], nontrivial=True)
+
+    return run
+
+
 def make_run(W, shape, known_active=None):
     from ovld import typeorder
 
+    if shape.get("late"):
+        return make_run_late(W, shape)
     if known_active is None:
         known_active = {e["id"]: e for e in runner.load_known(PID) if e.get("status") == "known"}
     a, b = totuple(shape["a"]), totuple(shape["b"])
@@ -203,6 +250,7 @@ def gen_shapes(tier, seed):
     # class / generic fragment again over a PREORDER: distinct classes may be subclasses of each other
     frag = [t for t in terms if t[0] in ("K", "obj", "list", "dict", "type", "raw")]
     shapes += [dict(n=n, a=a, b=b, preorder=True) for a, b in itertools.combinations_with_replacement(frag, 2)]
+    shapes.append(dict(n=n, late=True, a=["obj"], b=["obj"]))
     return shapes, len(shapes), False
 
 
